@@ -1,7 +1,7 @@
 (* C19 — property theorems only.  Each is closed by [exact] of a lemma from
    Proofs.v and followed by Print Assumptions. *)
 From Coq Require Import ZArith List Bool QArith Qminmax.
-From Verif Require Import C19.Model C19.Proofs.
+From Verif Require Import C19.Model C19.Proofs C19.ParProofs.
 Import ListNotations.
 
 (* A stage with a checkpoint processes a signal only if that checkpoint
@@ -66,3 +66,47 @@ Theorem c19_amplification_clamped_product :
     (r_amp r == Qmin maxamp (qprod (applied (r_results r))))%Q.
 Proof. exact amplification_clamped_product_proof. Qed.
 Print Assumptions c19_amplification_clamped_product.
+
+(* ====================================================================== *)
+(* The fork pattern, Cascade.run_parallel ([run_par false]; every stage receives the input of the run). *)
+
+(* Gates fail closed in the fork too: a stage that has a checkpoint processes a signal only if that checkpoint
+   returned true for exactly that signal (which is the input of the run). *)
+Theorem c19_parallel_gate_fail_closed :
+  forall stages x0 i x s c,
+    In (i, CbProc, x) (p_log (run_par false stages x0)) ->
+    nth_error stages i = Some s -> s_check s = Some c -> x = x0 /\ c x = GPass.
+Proof. exact par_gate_fail_closed_proof. Qed.
+Print Assumptions c19_parallel_gate_fail_closed.
+
+(* every callback of a parallel run belongs to a stage of the pipeline and is handed the run's input *)
+Theorem c19_parallel_callbacks_get_the_input :
+  forall stages x0 e,
+    In e (p_log (run_par false stages x0)) -> snd e = x0 /\ (ev_idx e < length stages)%nat.
+Proof. exact par_log_inputs_proof. Qed.
+Print Assumptions c19_parallel_callbacks_get_the_input.
+
+(* success <-> one COMPLETED result per stage *)
+Theorem c19_parallel_success_iff_all_completed :
+  forall stages x0,
+    let r := run_par false stages x0 in
+    p_success r = true <->
+    map idx_status (p_results r) = map (fun j => (j, Completed)) (seq 0 (length stages)).
+Proof. exact par_success_iff_proof. Qed.
+Print Assumptions c19_parallel_success_iff_all_completed.
+
+(* no output is released unless the run is successful; a successful run releases exactly what each stage's
+   processor returned for the input *)
+Theorem c19_parallel_no_output_unless_success :
+  forall stages x0,
+    p_success (run_par false stages x0) = false -> p_outputs (run_par false stages x0) = None.
+Proof. exact par_no_output_unless_success_proof. Qed.
+Print Assumptions c19_parallel_no_output_unless_success.
+
+Theorem c19_parallel_outputs :
+  forall stages x0,
+    let r := run_par false stages x0 in
+    p_success r = true -> stages <> [] ->
+    exists outs, p_outputs r = Some outs /\ map Some outs = map (fun s => s_proc s x0) stages.
+Proof. exact par_outputs_proof. Qed.
+Print Assumptions c19_parallel_outputs.
